@@ -58,8 +58,12 @@ def gen_stream(rng, n=None, names=None, vals=None, wide_share=0.25, homog=False,
             k = rng.randint(min_fields, min(max_fields, len(names)))
             ks = rng.sample(names, k)
         if wide:
-            extra = rng.sample(WNAMES, rng.randint(12, 16))
-            ks = ks + [w for w in extra if w not in ks]
+            # total width (incl. _id) exactly at / next to the hash-index threshold of 12, or well beyond it
+            target = rng.choice([11, 12, 12, 12, 13, rng.randint(14, 20)]) - (1 if with_id else 0)
+            extra = [w for w in rng.sample(WNAMES, len(WNAMES)) if w not in ks]
+            if len(ks) > target:
+                ks = ks[:target]
+            ks = ks + extra[:max(0, target - len(ks))]
             if layout is None:
                 rng.shuffle(ks)
         rec = [(k, rng.choice(vals)) for k in ks]
@@ -465,7 +469,12 @@ def v_rename(cx):
         F = olds
     else:
         rx = rng.choice(M.REGEXES)
-        repl = rng.choice(["X", "N_", "", "Q\\1"] if "(" in rx[1] else ["X", "N_", "_new", "Y"])
+        repl = rng.choice(["X", "N_", "_new", "Y"])
+        if rng.random() < 0.3:
+            # capture groups in the new name (documented for -r; -g is "global replacement within each field name")
+            rx, repl = rng.choice([(("^(.)(.*)$", "^(.)(.*)$", 0), "R_\\1\\2"), (("(b)", "(b)", 0), "<\\1>"),
+                                   (("^(.)", "^(.)", 0), "\\1\\1_")])
+            cx.opt = mode + "+capture"
         argv = ["rename"] + (["-g"] if mode == "gr" else []) + ["-r", rx[0] + "," + repl]
         exp = [M.rename_regex(r, rx, repl, gsub=(mode == "gr")) for r in recs]
 
@@ -605,12 +614,32 @@ def v_sort_within_records(cx):
 # ==========================================================================================
 # verb handlers, part 2
 
+def _permuted_stream(rng):
+    """Small key pool: many records hold the COMPLETE key union, in their own order; others lack keys."""
+    pool = rng.sample(NAMES + ["_id"], rng.randint(2, 6))
+    if rng.random() < 0.25:
+        pool += rng.sample(WNAMES, rng.choice([6, 7, 8, 10]))      # union of 11/12/13+ keys
+    recs = []
+    for i in range(rng.randint(3, 10)):
+        x = rng.random()
+        ks = list(pool)
+        if x < 0.45:
+            rng.shuffle(ks)                                    # complete, permuted
+        elif x < 0.55:
+            pass                                               # complete, pool order
+        else:
+            ks = rng.sample(pool, rng.randint(1, len(pool)))    # sparse, own order
+        recs.append([(k, rng.choice(VALS)) for k in ks])
+    return recs
+
+
 def v_unsparsify(cx):
     rng = cx.rng
-    recs = gen_stream(rng, wide_share=0.15)
-    mode = rng.choice(["all", "all", "f", "f"])
+    permuted = rng.random() < 0.5
+    recs = _permuted_stream(rng) if permuted else gen_stream(rng, wide_share=0.15)
+    mode = rng.choice(["all", "all", "all", "f"]) if permuted else rng.choice(["all", "all", "f", "f"])
     fill = rng.choice([None, None, "X", "0", "-"])
-    cx.opt = mode + ("+fill" if fill is not None else "")
+    cx.opt = mode + ("+fill" if fill is not None else "") + ("+permuted" if permuted else "")
     fv = fill if fill is not None else ""
     argv = ["unsparsify"] + (["--fill-with", fill] if fill is not None else [])
     if mode == "f":
@@ -638,8 +667,24 @@ def v_unsparsify(cx):
     cx.nontrivial = outs != recs
     if cx.judge(argv, recs, outs, byv, exp) and mode == "all" and outs:
         hdr = [k for k, _ in outs[0]]
-        if any([k for k, _ in o] != hdr for o in outs):
-            cx.violation("model", "not-rectangular", "unsparsify output is not rectangular", argv, recs, got=outs[:20])
+        union = [k for k, _ in M.unsparsify(recs, fv)[0]]
+        if any([k for k, _ in o] != hdr for o in outs) or hdr != union:
+            cx.violation("model", "not-rectangular", f"unsparsify output is not rectangular in first-seen key order {union}", argv, recs, got=outs[:20])
+            return
+        if rng.random() < 0.5:
+            # the same stream as a CSV consumer sees it: one header line = the first-seen union, one row per record
+            r = R.mlr(cx.main + ["--ocsv", "--quote-all"] + argv, stdin=gen.dkvp(recs))
+            bump(cx.res, "runs")
+            want_hdr = ",".join('"' + k.replace('"', '""') + '"' for k in union)
+            lines = r.out.split("\n")
+            if r.verdict == "slow":
+                cx.res["inconc"] += 1
+            elif not r.ok or lines[0] != want_hdr or len(lines) != len(recs) + 2:
+                cx.violation("model", "csv-not-one-rectangular-block",
+                             f"--ocsv unsparsify does not give one header {want_hdr} + {len(recs)} rows: rc={r.rc} {r.err.strip()[:150]} {r.out[:200]!r}",
+                             ["--ocsv", "--quote-all"] + argv, recs)
+            else:
+                bump(cx.res, "csv_block_checks")
 
 
 def v_sparsify(cx):
@@ -1479,6 +1524,182 @@ def i_reorder(cx):
 
 
 # ==========================================================================================
+# chains: restructuring verb THEN a verb that looks fields up BY NAME (old and new names), on records
+# whose width sits exactly at / next to the hash-index threshold, in DKVP / CSV / CSV-lite / NIDX / JSON
+# input.  Model-free: the chain must print the same bytes with the lazily built key index (default), with
+# --hash-records and with --no-hash-records (linear search only).
+
+CH_VALS = ["1", "x", "x;y", "pk1:1;pk2:2", "hello world", "", "0x1F", "17", "a b", "banana", "1500000000", "é", "-3", "Abc"]
+
+
+def _chain_stream(rng, fmt):
+    homog = fmt in ("csv", "nidx") or rng.random() < 0.3
+    n = rng.randint(3, 8)
+
+    def width():
+        return rng.choice([11, 12, 12, 12, 12, 13, 13, rng.choice([3, 8, 20])])
+    pool = NAMES + WNAMES if fmt != "nidx" else [str(i + 1) for i in range(24)]
+    vals = CH_VALS if fmt != "nidx" else [v for v in CH_VALS if v and " " not in v]
+    recs = []
+    w0 = width()
+    layout = rng.sample(pool, w0) if fmt != "nidx" else pool[:w0]
+    for i in range(n):
+        if homog:
+            ks = list(layout)
+        else:
+            ks = rng.sample(pool, width())
+            # share names with the first record so that the probes hit
+            for j, k in enumerate(layout[:4]):
+                if k not in ks and rng.random() < 0.8:
+                    ks[rng.randrange(len(ks))] = k
+            ks = list(dict.fromkeys(ks))
+        recs.append([(k, rng.choice(vals)) for k in ks])
+    return recs
+
+
+def _render_chain_input(recs, fmt):
+    if fmt == "dkvp":
+        return [], gen.dkvp(recs)
+    if fmt == "json":
+        return ["--ijson"], gen.json_text(recs)
+    if fmt == "nidx":
+        return ["--inidx", "--ifs", " "], "".join(" ".join(v for _, v in r) + "\n" for r in recs)
+    if fmt == "csv":
+        return ["--icsv"], ",".join(k for k, _ in recs[0]) + "\n" + "".join(",".join(v for _, v in r) + "\n" for r in recs)
+    # csvlite: schema change = blank line + new header
+    lines, prev = [], None
+    for r in recs:
+        hdr = [k for k, _ in r]
+        if hdr != prev:
+            if prev is not None:
+                lines.append("")
+            lines.append(",".join(hdr))
+            prev = hdr
+        lines.append(",".join(v for _, v in r))
+    return ["--icsvlite"], "\n".join(lines) + "\n"
+
+
+def _dq(name):
+    return "${" + name + "}"
+
+
+def _first_verbs(rng, names):
+    a = rng.choice(names)
+    b = rng.choice([x for x in names if x != a] or [a])
+    c = rng.choice(names)
+    NEW = rng.choice(["brandnew", "N.w", "new name", "Z9", "b_"])
+    plain = [x for x in names if re.fullmatch(r"[A-Za-z0-9_]+", x)]
+    cat = [
+        (["rename", f"{a},{NEW}"], [NEW]),
+        (["rename", f"{a},{NEW}"], [NEW]),
+        (["rename", f"{a},{NEW}"], [NEW]),
+        (["rename", f"{a},{NEW},{b},{NEW}2"], [NEW, NEW + "2"]),
+        (["rename", f"nosuch,zz,{a},{NEW}"], [NEW]),
+        (["rename", "-r", "^(.)(.*)$,R_\\1\\2"], ["R_" + a, "R_" + b]),
+        (["reorder", "-f", f"{a},{b}"], []),
+        (["reorder", "-e", "-f", a], []),
+        (["cut", "-x", "-f", b], []),
+        (["cut", "-o", "-f", lst(rng.sample(names, max(1, len(names) - 1)))], []),
+        (["label", "L1,L2"], ["L1", "L2"]),
+        (["sort-within-records"], []),
+        (["regularize"], []),
+        (["template", "-f", lst(rng.sample(names, len(names)) + ["T_new"])], ["T_new"]),
+        (["unsparsify", "-f", "U_new," + a], ["U_new"]),
+        (["unsparsify"], []),
+        (["sparsify", "-f", a], []),
+        (["fill-empty", "-v", "F"], []),
+        (["case", "-u", "-k", "-f", a], [a.upper()]),
+        (["unspace"], [x.replace(" ", "_") for x in names if " " in x]),
+        (["sub", "-f", a, "a", "X"], []),
+        (["sec2gmt", a], []),
+        (["nest", "--explode", "--values", "--across-fields", "--nested-fs", ";", "-f", a], [a + "_1", a + "_2"]),
+        (["nest", "--evar", ";", "-f", a], []),
+        (["nest", "--explode", "--pairs", "--across-fields", "-f", a], ["pk1", "pk2"]),
+        (["nest", "--explode", "--pairs", "--across-records", "-f", a], ["pk1", "pk2"]),
+        (["reshape", "-i", f"{a},{b}", "-o", "rk,rv"], ["rk", "rv"]),
+        (["fill-down", "-f", a], []),
+        (["json-stringify", "-f", a], []),
+        (["put", f"{_dq(NEW)} = {_dq(a)}; unset {_dq(a)}"], [NEW]),
+        (["sort-within-records", "-r"], []),
+    ]
+    if plain:
+        p0 = rng.choice(plain)
+        cat += [(["rename", "-r", f"^{p0}$,{NEW}"], [NEW]), (["rename", "-r", f"^{p0}$,{NEW}"], [NEW]),
+                (["rename", "-g", "-r", f"{p0[0]},Q"], [p0.replace(p0[0], "Q")])]
+    argv, news = rng.choice(cat)
+    return argv, news, [a, b, c]
+
+
+def _second_verbs(rng, P):
+    p0 = P[0]
+    progs = "; ".join(f'$["pr{i}"] = is_present({_dq(p)}); $["cp{i}"] = {_dq(p)}' for i, p in enumerate(P))
+    cat = [
+        ["cut", "-o", "-f", lst(P)], ["cut", "-o", "-f", lst(P)], ["cut", "-f", lst(P)], ["cut", "-x", "-f", lst(P)],
+        ["rename", lst(x for i, p in enumerate(P) for x in (p, f"BK{i}"))], ["rename", f"{p0},BK"],
+        ["reorder", "-f", lst(P)], ["reorder", "-e", "-f", lst(P)],
+        ["put", progs], ["put", "-q", f"if (is_present({_dq(p0)})) {{ emit mapsum({{\"v\": {_dq(p0)}}}, {{\"n\": NF}}) }}"],
+        ["sort", "-f", p0], ["sort", "-f", lst(P[:2])], ["having-fields", "--at-least", p0], ["having-fields", "--all-defined", lst(P)],
+        ["unsparsify", "-f", lst(P)], ["template", "-f", lst(P)], ["sec2gmt", lst(P)], ["fill-down", "-a", "-f", p0],
+        ["sparsify", "-f", lst(P)], ["sub", "-f", lst(P), "a", "X"], ["nest", "--evar", ";", "-f", p0],
+        ["count-distinct", "-f", p0], ["head", "-n", "1", "-g", p0], ["fill-empty", "-v", "E"], ["json-stringify", "-f", lst(P)],
+        ["nest", "--ivar", ";", "-f", p0], ["reshape", "-i", lst(P), "-o", "k2,v2"], ["count-similar", "-g", p0],
+    ]
+    return rng.choice(cat)
+
+
+def chain_case(case):
+    rng = random.Random(case["seed"])
+    res = case_result(_h(case["seed"]), nontrivial=False)
+    fmt = rng.choice(["dkvp", "dkvp", "csv", "csv", "nidx", "json", "csvlite"])
+    recs = _chain_stream(rng, fmt)
+    names = [k for k, _ in recs[0]]
+    first, news, olds = _first_verbs(rng, names)
+    P = list(dict.fromkeys(news[:2] + olds[:rng.randint(1, 3)] + (["nosuch"] if rng.random() < 0.3 else [])))
+    if rng.random() < 0.5:
+        rng.shuffle(P)
+    second = _second_verbs(rng, P)
+    iflags, text = _render_chain_input(recs, fmt)
+    oflags = ["--ojson", "--jvquoteall", "--no-auto-flatten", "--no-auto-unflatten"]
+    chain = first + ["then"] + second
+    bump(res, f"chain_fmt:{fmt}")
+    bump(res, f"chain_first:{first[0]}")
+    widths = sorted({len(r) for r in recs})
+    for w in widths:
+        if w in (11, 12, 13):
+            bump(res, f"chain_width:{w}")
+    form = " ".join([first[0]] + [t for t in first[1:] if t.startswith("--") or t in ("-r", "-g", "-e", "-o", "-x", "-k", "-u", "-f", "-i", "-a")])
+    sig = {"verb": "chain:" + first[0], "form": form, "opt": second[0], "layer": "chain"}
+    outs = {}
+    for variant, vflags in (("default", []), ("no-hash", ["--no-hash-records"]), ("hash", ["--hash-records"])):
+        argv = vflags + iflags + oflags + chain
+        r = R.mlr(argv, stdin=text)
+        bump(res, "runs")
+        if r.verdict == "slow":
+            res["inconc"] += 1
+            return res
+        if r.verdict != "exited" or r.crashed():
+            add_violation(res, dict(sig, sub="crash-or-hang", variant=variant), f"mlr {' '.join(chain)} ({variant}) crashes or hangs: {r.verdict}",
+                          {"argv": argv, "stdin": text, "stderr": r.err[-2000:]})
+            return res
+        outs[variant] = (r.rc, r.stdout, argv)
+    ref = outs["no-hash"]
+    for variant in ("default", "hash"):
+        if outs[variant][:2] != ref[:2]:
+            w = ",".join(map(str, widths))
+            add_violation(res, dict(sig, sub="key-index-vs-linear-search", variant=variant),
+                          f"`{' '.join(chain)}` on {fmt} records of width {w} prints different output with the key index ({variant}) than with "
+                          f"--no-hash-records: a field is not found (or still found) by name after the first verb. "
+                          f"{variant}: {outs[variant][1][:300]!r} no-hash: {ref[1][:300]!r}",
+                          {"argv": outs[variant][2], "stdin": text, "expected": ref[1][:4000], "got": outs[variant][1][:4000]})
+            return res
+    bump(res, "chain_index_equalities")
+    res["nontrivial"] = ref[0] == 0 and any(w in (11, 12, 13) for w in widths) and len(ref[1]) > 5
+    if case.get("want_sample"):
+        res["sample"] = {"layer": "chain", "fmt": fmt, "chain": chain, "widths": widths}
+    return res
+
+
+# ==========================================================================================
 # dispatch
 
 VERBS = {
@@ -1577,6 +1798,9 @@ def run(chk):
             for i in range(per):
                 cases.append({"layer": "v", "verb": v, "seed": f"{chk.seed}/v/{v}/{i}", "want_sample": i == 0 and v in ("cut", "nest-implode", "rename")})
         chk.pmap(verb_case, cases, chunksize=8, label="v verbs")
+    if not only or "c" in only:
+        n = 700 if q else 12000
+        chk.pmap(chain_case, [{"seed": f"{chk.seed}/c/{i}", "want_sample": i == 0} for i in range(n)], chunksize=8, label="c chains")
     if not only or "i" in only:
         per = 35 if q else 850
         cases = [{"layer": "i", "verb": v, "seed": f"{chk.seed}/i/{v}/{i}"} for v in INVERSES for i in range(per)]
